@@ -96,11 +96,12 @@ enum class format_error {
 namespace _fmt_basics {
 	// width: Minimum width of the output (padded with spaces by default).
 	// precision: Minimum number of digits in the output (always padded with zeros).
+	// prefix: Printed between the sign and the digits (e.g., "0x"); counts towards the width.
 	template<Sink S, typename T>
 	void print_digits(S &sink, T number, bool negative, int radix,
 			int width, int precision, char padding, bool left_justify,
 			bool group_thousands, bool always_sign, bool plus_becomes_space,
-			bool use_capitals, locale_options locale_opts) {
+			bool use_capitals, locale_options locale_opts, const char *prefix = "") {
 		const char *digits = use_capitals ? "0123456789ABCDEF" : "0123456789abcdef";
 		char buffer[64];
 
@@ -137,12 +138,13 @@ namespace _fmt_basics {
 		};
 
 		// print the number in reverse order and determine #digits.
-		do {
+		// A zero value with a precision of zero has no digits at all.
+		while(number || (!k && precision)) {
 			FRG_ASSERT(k < 64); // TODO: variable number of digits
 			buffer[k++] = digits[number % radix];
 			number /= radix;
 			step_grouping();
-		} while(number);
+		}
 
 		if (k < precision)
 			for (int i = 0; i < precision - k; i++)
@@ -151,18 +153,28 @@ namespace _fmt_basics {
 		if (!c)
 			c = locale_opts.grouping[g];
 
-		int final_width = max(k, precision) + extra;
+		char sign = 0;
+		if(negative)
+			sign = '-';
+		else if(always_sign)
+			sign = '+';
+		else if(plus_becomes_space)
+			sign = ' ';
 
-		if(!left_justify && final_width < width)
+		// The sign and the prefix are part of the field; zero padding goes between them and the digits.
+		int final_width = max(k, precision) + extra + (sign ? 1 : 0) + generic_strlen(prefix);
+
+		if(!left_justify && padding != '0' && final_width < width)
 			for(int i = 0; i < width - final_width; i++)
 				sink.append(padding);
 
-		if(negative)
-			sink.append('-');
-		else if(always_sign)
-			sink.append('+');
-		else if(plus_becomes_space)
-			sink.append(' ');
+		if(sign)
+			sink.append(sign);
+		sink.append(prefix);
+
+		if(!left_justify && padding == '0' && final_width < width)
+			for(int i = 0; i < width - final_width; i++)
+				sink.append(padding);
 
 		if(k < precision) {
 			for(int i = 0; i < precision - k; i++) {
@@ -178,7 +190,7 @@ namespace _fmt_basics {
 
 		if(left_justify && final_width < width)
 			for(int i = final_width; i < width; i++)
-				sink.append(padding);
+				sink.append(' ');
 	}
 
 	// Signed integer formatting. We cannot print -x as that might not fit into the signed type.
@@ -189,16 +201,16 @@ namespace _fmt_basics {
 			int precision = 1, char padding = ' ', bool left_justify = false,
 			bool group_thousands = false, bool always_sign = false,
 			bool plus_becomes_space = false, bool use_capitals = false,
-			locale_options locale_opts = {}) {
+			locale_options locale_opts = {}, const char *prefix = "") {
 		if(number < 0) {
 			auto absv = ~static_cast<typename std::make_unsigned_t<T>>(number) + 1;
 			print_digits(sink, absv, true, radix, width, precision, padding,
 					left_justify, group_thousands, always_sign, plus_becomes_space, use_capitals,
-					locale_opts);
+					locale_opts, prefix);
 		}else{
 			print_digits(sink, number, false, radix, width, precision, padding,
 					left_justify, group_thousands, always_sign, plus_becomes_space, use_capitals,
-					locale_opts);
+					locale_opts, prefix);
 		}
 	}
 
